@@ -116,6 +116,8 @@ impl World {
                         let t = self.tx.get_mut(&cid).unwrap();
                         t.st = "accepting";
                         self.acc.insert(cid, (t.peer.clone(), t.dir.to_string()));
+                    } else if let Some(t) = self.tx.get_mut(&cid) {
+                        t.st = "closed";
                     }
                     calls.push(json!({"c": "accept", "cid": cid, "ok": ok}));
                 }
@@ -240,6 +242,9 @@ impl World {
                 stim["dir"] = json!("out");
                 stim["mismatch"] = json!(self.pname(&peer) != t.peer);
                 stim["tcp_peer"] = json!(self.pname(&peer));
+                if s.get("lost").and_then(|l| l.as_bool()).unwrap_or(false) {
+                    self.h.fail_accept_call(c);
+                }
                 self.tx.get_mut(&c).unwrap().st = "est";
                 self.h.inject_established(peer, c, false, addr);
             }
@@ -372,8 +377,16 @@ impl World {
                 "dialing" => {
                     v.push(json!({"a": "dial_fail", "c": c}));
                     v.push(json!({"a": "established", "c": c}));
+                    if rng.gen_bool(0.15) {
+                        v.push(json!({"a": "established", "c": c, "lost": true}));
+                    }
                 }
-                "negotiating" => v.push(json!({"a": "established", "c": c})),
+                "negotiating" => {
+                    v.push(json!({"a": "established", "c": c}));
+                    if rng.gen_bool(0.15) {
+                        v.push(json!({"a": "established", "c": c, "lost": true}));
+                    }
+                }
                 "opening" => {
                     v.push(json!({"a": "open_fail", "c": c}));
                     let a = t.addrs.choose(rng).unwrap();
